@@ -26,7 +26,7 @@ MISSING_OK = ('float16', 'float32', 'float64', 'complex64', 'complex128', 'objec
 OPS = ('f_fillna_dir1', 's_reindex', 's_shift', 's_concat', 's_insert', 's_assign_el', 's_assign_arr', 's_assign_series', 's_assign_series_partial', 'f_assign_series_partial', 's_fillna', 's_fillna_series', 's_overlay', 's_from_items', 's_from_list',
        'f_reindex', 'f_shift', 'f_concat0', 'f_concat1', 'f_assign_el', 'f_assign_arr', 'f_assign_series', 'f_assign_bloc', 'f_fillna', 'f_fillna_sided',
        'f_row', 'f_values', 'f_iter_array1', 'f_from_records', 'f_from_records_mixed', 'f_from_dict_records', 'f_from_items', 'f_insert', 'f_overlay',
-       'go_setitem', 'go_extend', 'ix_append', 'ix_fillna', 'f_relabel_shift', 'f_unset_index', 'f_pivot_stack', 'f_pivot_unstack')
+       'go_setitem', 'go_extend', 'ix_append', 'ix_fillna', 'f_relabel_shift', 'f_unset_index', 'f_pivot_stack', 'f_pivot_unstack', 'f_pivot_unstack_ragged')
 
 
 def _str_or_bytes(k):
@@ -369,6 +369,24 @@ def check(case):
                 for c, t in enumerate(u.columns):
                     rl = [canon(x) for x in u.index]
                     _series_cells(u.iloc[:, c], [src[(x, int(t[1]))] for x in rl], op + '[%r]' % (int(t[1]),), cells)
+        elif op == 'f_pivot_unstack_ragged':
+            # rows labelled (r0, 0), (r0, 1), (r1, 1): unstacking the inner depth needs the fill value for (r1, 0) only; the column
+            # of inner label 1 is complete, receives no fill and keeps its values and its dtype
+            if n < 3:
+                raise Discard('needs three rows')
+            src = a[:3]
+            f = sf.Frame.from_items((('v', src),), index=sf.IndexHierarchy.from_labels([('r0', 0), ('r0', 1), ('r1', 1)]))
+            r = f.pivot_unstack(1, fill_value=eb)
+            cols = {int(t[1]): c for c, t in enumerate(r.columns)}
+            rows = [canon(x) for x in r.index]
+            if sorted(cols) != [0, 1] or sorted(rows) != ['r0', 'r1']:
+                raise Failure('value', '%s: labels %r x %r' % (op, list(r.index), list(r.columns)))
+            la3 = arr_list(src)
+            want0 = {'r0': la3[0], 'r1': eb}
+            want1 = {'r0': la3[1], 'r1': la3[2]}
+            _series_cells(r.iloc[:, cols[0]], [want0[x] for x in rows], op + '[0]', cells)
+            _series_cells(r.iloc[:, cols[1]], [want1[x] for x in rows], op + '[1]', cells)
+            dts.append((r.iloc[:, cols[1]].dtype, a.dtype, op + ' column of the complete inner label'))
         elif op in ('f_relabel_shift', 'f_unset_index'):
             uniq = []
             for x in la:
